@@ -221,7 +221,9 @@ func (c *Client) Connect() error {
 	}
 	// TODO: Do we always want to send initial presence automatically ?
 	// Do we need an option to avoid that or do we rely on client to send the presence itself ?
-	err = c.sendWithWriter(c.transport, []byte(InitialPresence))
+	// The initial presence is a stanza like any other: with stream management it is counted by the server,
+	// so it has to go through the unacknowledged-stanza queue as well.
+	err = c.SendRaw(InitialPresence)
 	// Execute the post first connection hook. Typically this holds "ask for roster" and this type of actions.
 	if c.PostConnectHook != nil {
 		err = c.PostConnectHook()
